@@ -1,0 +1,6 @@
+//go:build !verif
+
+package raft
+
+// verifHook is a no-op unless the library is built with the "verif" build tag.
+func verifHook(name string, args ...interface{}) {}
